@@ -21,6 +21,8 @@ for p in "${props[@]}"; do
   e=$(date +%s)
   nv=$(echo "$out" | grep -c '^VIOLATION')
   sigs=$(echo "$out" | grep "^--- $p sig=" | sed 's/^--- //' | sort | uniq -c | head -4 | tr '\n' ';')
+  hn=$(grep -c 'HARNESS' /dev/shm/seedtest-out/evidence/$p.json 2>/dev/null)
+  [ "${hn:-0}" -gt 0 ] && sigs="$sigs HARNESS-notes=$hn"
   echo "$p rc=$rc violations=$nv $((e-s))s $sigs"
   [ $rc -eq 1 ] && caught+=("$p")
   [ $rc -eq 2 ] && echo "$out" | tail -5
